@@ -393,12 +393,13 @@ type flattenIterator[T any] struct {
 func (iter *flattenIterator[T]) Next() (T, bool) {
 	for {
 		if iter.curr == nil {
-			var ok bool
-			iter.curr, ok = iter.inner.Next()
+			// What inner.Next returns alongside false is meaningless: don't keep it.
+			curr, ok := iter.inner.Next()
 			if !ok {
 				var zero T
 				return zero, false
 			}
+			iter.curr = curr
 		}
 
 		item, ok := iter.curr.Next()
